@@ -54,7 +54,7 @@ class C16Machine(Machine):
            "target_column_last", "str_path", "pd_target_column", "later_row_also_fails",
            "result_missing_empty_cell", "target_cell_changed", "pd_missing_is_na", "pd_strict_raised",
            "zero_rows", "fault_in_other_column", "ambiguous_mode_converted_cell", "file_larger_than_8k", "table_ge_40_rows",
-           "eol_crlf", "eol_lf", "eol_mixed", "no_final_line_terminator", "sep_explicit_tab", "relative_path", "pd_target_is_source", "pd_int_labels", "pd_int_labels_not_positions", "file_flags_left_to_defaults", "pd_flags_left_to_defaults", "cell_with_unicode_line_boundary",
+           "eol_crlf", "eol_lf", "eol_mixed", "no_final_line_terminator", "sep_explicit_tab", "relative_path", "pd_target_is_source", "pd_int_labels", "pd_int_labels_not_positions", "file_flags_left_to_defaults", "pd_flags_left_to_defaults", "cell_convertible_only_after_extension", "fault_in_header", "cell_with_unicode_line_boundary",
            "pd_index_custom", "pd_index_reversed", "pd_index_offset", "pd_index_duplicated", "pd_index_sliced"]
     )
 
@@ -83,6 +83,9 @@ class C16Machine(Machine):
             "p_nasty": rng.choice([0.2, 0.5, 0.9]),
             "n_pd": rng.choice([0, 1, 2, 3]),
             "fault_kinds": rng.sample(FAULT_KINDS, rng.randint(1, len(FAULT_KINDS))),
+            # the converter is extended (add_prefix / add_record, merge or append) between bulk operations,
+            # and the same tables are converted before and after: bulk results must follow the scalar ones
+            "extend": rng.random() < 0.3,
         }
         if rng.random() < (0.03 if tier == "quick" else 0.06):
             # rare large table: crosses the 8 KiB text-buffer size and any plausible chunk size
@@ -92,6 +95,7 @@ class C16Machine(Machine):
             cfg["max_ops"] = cfg["n_rows"] + 8
             cfg["width"] = max(cfg["width"], 2)
         cfg["column"] = rng.randrange(cfg["width"])
+        cfg["max_ops"] += 6
         return cfg
 
     def __init__(self, config, known=frozenset()):
@@ -107,6 +111,7 @@ class C16Machine(Machine):
         self.file_no = 0
         self.ff_nontrivial = False
         self.fault_nontrivial = False
+        self.extended = False
 
     def close(self):
         if self.dir and os.path.isdir(self.dir):
@@ -178,6 +183,19 @@ class C16Machine(Machine):
                         cell += "." * 70      # make the file cross the 8 KiB text buffer
                     row.append(cell)
             rows.append(row)
+        if cfg.get("extend") and self.conv.records:
+            # cells that only become convertible once the converter has been extended
+            d = self.conv.delimiter
+            compressing = func in ("file_compress", "pd_compress", "pd_standardize_uri")
+            for i in range(len(rows)):
+                if rng.random() < 0.3:
+                    ident = rng.choice(["1", "x", "0001"])
+                    if func == "pd_standardize_prefix":
+                        rows[i][col] = rng.choice(["fut1", "futnew"])
+                    elif compressing:
+                        rows[i][col] = rng.choice(["fut:1/", "fut:new/"]) + ident
+                    else:
+                        rows[i][col] = rng.choice(["fut1", "futnew"]) + d + ident
         # near-duplicates of earlier target cells (case, surrounding blanks): what a badly keyed
         # per-cell cache or a normalising "optimisation" would confuse
         for i in range(1, len(rows)):
@@ -256,6 +274,15 @@ class C16Machine(Machine):
                 frows[k][fcol] = "L" * (csv.field_size_limit() + 1 + rng.randint(0, 3))
             op["fault"] = {"kind": kind, "row": k, "col": fcol}
             plan.append(op)
+        if cfg["header"] and hdr:
+            # a reader-level fault in the HEADER row (nothing has been converted yet: still atomic)
+            kind = rng.choice(["undecodable_bytes", "oversize_field"])
+            op = dict(copy.deepcopy(base), rows=copy.deepcopy(rows))
+            j = rng.randrange(len(op["hdr"]))
+            op["hdr"][j] = ("b" + BAD + "d") if kind == "undecodable_bytes" else "L" * (csv.field_size_limit() + 2)
+            op["fault"] = {"kind": kind, "row": -1, "col": j}
+            plan.append(op)
+        pd_ops = []
         # pandas operations on the same kind of table (fault-free equivalence, strict raising)
         for _ in range(cfg["n_pd"]):
             pf = rng.choice(PD_FUNCS)
@@ -279,10 +306,25 @@ class C16Machine(Machine):
                 target = "t_new" if isinstance(names[0], str) else 99
             elif tc == "other" and cfg["width"] > 1:
                 target = names[(col + 1) % cfg["width"]]
-            plan.append({"op": "pd", "func": pf, "names": names, "rows": prow, "column": names[col],
+            pd_ops.append({"op": "pd", "func": pf, "names": names, "rows": prow, "column": names[col],
                          "target_column": target, "strict": rng.random() < 0.3, "passthrough": rng.random() < 0.5,
                          "ambiguous": pamb, "omit_defaults": rng.random() < 0.5,
                          "index": rng.choice(["range", "range", "range", "custom", "reversed", "offset", "duplicated", "sliced"])})
+        plan.extend(pd_ops)
+        if cfg.get("extend") and self.conv.records:
+            r0 = rng.choice(self.conv.records)
+            if rng.random() < 0.7:
+                # merge new names into an existing record
+                ext = {"prefix": r0.prefix, "uri_prefix": r0.uri_prefix, "prefix_synonyms": ["fut1"],
+                       "uri_prefix_synonyms": ["fut:1/"], "merge": True}
+            else:
+                ext = {"prefix": "futnew", "uri_prefix": "fut:new/", "prefix_synonyms": [], "uri_prefix_synonyms": [],
+                       "merge": False}
+            plan.append({"op": "extend", "via": rng.choice(["add_prefix", "add_record"]), "record": ext})
+            # the same fault-free table and the same frames again, now that more cells are convertible
+            plan.append(copy.deepcopy(plan[0]))
+            for po in pd_ops:
+                plan.append(copy.deepcopy(po))
         return plan
 
     @staticmethod
@@ -350,6 +392,22 @@ class C16Machine(Machine):
             return {"records": len(op["records"])}
         if self.conv is None:
             return {"skipped": "no converter"}
+        if op["op"] == "extend":
+            r = op["record"]
+            try:
+                if op["via"] == "add_record":
+                    self.conv.add_record(self.curies.Record(prefix=r["prefix"], uri_prefix=r["uri_prefix"],
+                                                            prefix_synonyms=r["prefix_synonyms"],
+                                                            uri_prefix_synonyms=r["uri_prefix_synonyms"]), merge=r["merge"])
+                else:
+                    self.conv.add_prefix(r["prefix"], r["uri_prefix"], prefix_synonyms=r["prefix_synonyms"],
+                                         uri_prefix_synonyms=r["uri_prefix_synonyms"], merge=r["merge"])
+            except ValueError:
+                self.event("extend_rejected")      # whether an add is accepted is C05's business
+                return {"extended": False}
+            self.event("extend_" + ("merge" if r["merge"] else "append"))
+            self.extended = True
+            return {"extended": True}
         if op["op"] == "file":
             return self._file(op)
         if op["op"] == "pd":
@@ -482,7 +540,9 @@ class C16Machine(Machine):
             kind = fault["kind"] if fault else why
             self.fault(kind)
             self.probe("fault_fired:" + (fault["kind"] if fault else "unplanned"))
-            if fault:
+            if fault and fault["row"] < 0:
+                self.probe("fault_in_header")
+            elif fault:
                 k, n = fault["row"], len(rows)
                 self.probe("fault_pos:" + ("first" if k == 0 else "last" if k == n - 1 else "middle"))
                 if k > 0:
@@ -549,6 +609,9 @@ class C16Machine(Machine):
                 self.probe("cell_with_unicode_line_boundary")
         if changed:
             self.probe("target_cell_changed")
+        if self.extended and any(v is not None and old.startswith(("fut", conv.delimiter)) is not None and "fut" in old
+                                 for _, v, old in expected_rows):
+            self.probe("cell_convertible_only_after_extension")
         if missing:
             self.probe("result_missing_empty_cell")
         if any(old.startswith("amb" + conv.delimiter) for _, _, old in expected_rows):
